@@ -23,7 +23,7 @@ func init() {
 		ID:      "C16",
 		Level:   "exploration",
 		Workers: 16,
-		Rule: "request mutation over the real service: valid requests captured from correct clients in all states (due-to-create, due-to-subscribe, subscribed with and without pending operations) are mutated in one to three fields - unknown / foreign / empty / swapped DUID, unknown or empty key, wrong type, every combination of the seven option bits (read-only with and without operations, snapshot, delete, unsubscribe, error), checkpoints stale / future / huge / zero, operation lists with gaps, repeats, reordering, foreign client id, other era, emptied, 500 operations; unregistered / foreign-collection / administrative / empty client id, unknown / other / empty collection, no packs, duplicated packs - plus correct requests with a panic injected inside their handler's goroutine between lock acquisition and commit (hook pp.before-commit: the recovery path must answer, keep the process alive and release the key; also for ONE of the two handlers of a two-pack message, which must still be answered with both packs), plus ClientMessage, PatchMessage (invalid JSON, non-object JSON, key of another type, unknown collection), CollectionMessage and EncodingMessage (no operation, unknown operation type, undecodable body, missing id) variants. Monitors: every call is answered (watchdog classification: a handler that ended without replying is a hang; a call that returns neither a response nor an error is not an answer), a server panic is a violation, refused (RPC error or error-bit pack) => store diff empty (volatile timestamps ignored); after every hostile request a canary client syncs the same key and another key and must be answered; after an ACCEPTED hostile request the stored log must still satisfy the structural invariants of C06 (gapless up to the recorded end, nobody acknowledged beyond what is stored). Client half: every error pack the server produced in the run and the five defined push-pull error codes are applied to a subscribed client: its error handler must be called, nothing may panic, and it must complete a normal sync of another datatype afterwards; every third case also runs the client half through the SDK's own sync path (Client.Sync() over real grpc): a lost response, a request refused at the RPC level and an error pack for one of two datatypes, in random order - after each the next Sync() must return (watchdog classification: waiting for the client's sync semaphore while no sync is under way is a hang) and succeed, the error pack must reach an error handler, and every issued operation ends up stored exactly once; " +
+		Rule: "request mutation over the real service: valid requests captured from correct clients in all states (due-to-create, due-to-subscribe, subscribed with and without pending operations) are mutated in one to three fields - unknown / foreign / empty / swapped DUID, unknown or empty key, wrong type, every combination of the seven option bits (read-only with and without operations, snapshot, delete, unsubscribe, error), checkpoints stale / future / huge / zero / absent, absent header, operations without id, operation lists with gaps, repeats, reordering, foreign client id, other era, emptied, 500 operations; unregistered / foreign-collection / administrative / empty client id, unknown / other / empty collection, no packs, duplicated packs - plus correct requests with a panic injected inside their handler's goroutine between lock acquisition and commit (hook pp.before-commit: the recovery path must answer, keep the process alive and release the key; also for ONE of the two handlers of a two-pack message, which must still be answered with both packs), plus ClientMessage, PatchMessage (invalid JSON, non-object JSON, key of another type, unknown collection), CollectionMessage and EncodingMessage (no operation, unknown operation type, undecodable body, missing id) variants. Monitors: every call is answered (watchdog classification: a handler that ended without replying is a hang; a call that returns neither a response nor an error is not an answer), a server panic is a violation, refused (RPC error or error-bit pack) => store diff empty (volatile timestamps ignored); after every hostile request a canary client syncs the same key and another key and must be answered; after an ACCEPTED hostile request the stored log must still satisfy the structural invariants of C06 (gapless up to the recorded end, nobody acknowledged beyond what is stored). Client half: every error pack the server produced in the run and the five defined push-pull error codes are applied to a subscribed client: its error handler must be called, nothing may panic, and it must complete a normal sync of another datatype afterwards; every third case also runs the client half through the SDK's own sync path (Client.Sync() over real grpc): a lost response, a request refused at the RPC level and an error pack for one of two datatypes, in random order - after each the next Sync() must return (watchdog classification: waiting for the client's sync semaphore while no sync is under way is a hang) and succeed, the error pack must reach an error handler, and every issued operation ends up stored exactly once; " +
 			"non-trivial = the request differs from any request a correct client could send (every mutated request); distinct = hash of the mutation script",
 		Assumptions: []string{
 			"only 'answered / not answered / crashed' and 'refused => unchanged' are verdicts; whatever a canary notices after an ACCEPTED hostile request (error pack, client-side panic) is recorded as a diagnostic",
@@ -68,11 +68,31 @@ func (x *c16world) mutate(req *model.PushPullMessage) string {
 		if len(req.PushPullPacks) > 0 {
 			p = req.PushPullPacks[r.Intn(len(req.PushPullPacks))]
 		}
-		k := r.Intn(30)
+		k := r.Intn(34)
 		if p == nil && k < 22 {
 			k = 22 + r.Intn(8)
 		}
 		switch k {
+		case 30:
+			// fields a message may simply not carry (all are optional on the wire)
+			if p != nil {
+				p.CheckPoint = nil
+				desc = append(desc, "cp=absent")
+			}
+		case 31:
+			req.Header = nil
+			desc = append(desc, "header=absent")
+		case 32:
+			if p != nil && len(p.Operations) > 0 {
+				p.Operations[r.Intn(len(p.Operations))].ID = nil
+				desc = append(desc, "ops=id-absent,cuid=") // accounted like a foreign identity
+			}
+		case 33:
+			// (an operation without a body would be a corrupted body: outside the statement, see Assumptions)
+			if p != nil {
+				p.Era = uint32(1 + r.Intn(3))
+				desc = append(desc, "era=other")
+			}
 		case 0:
 			p.DUID = randUID(r)
 			desc = append(desc, "duid=unknown")
@@ -140,7 +160,7 @@ func (x *c16world) mutate(req *model.PushPullMessage) string {
 				j := 1 + r.Intn(len(p.Operations)-2)
 				p.Operations = append(p.Operations[:j], p.Operations[j+1:]...)
 				desc = append(desc, "ops=gap")
-			} else if len(p.Operations) > 0 {
+			} else if len(p.Operations) > 0 && p.Operations[0].ID != nil {
 				p.Operations[0].ID.Seq += 3
 				desc = append(desc, "ops=gap(first)")
 			}
@@ -158,14 +178,16 @@ func (x *c16world) mutate(req *model.PushPullMessage) string {
 			switch r.Intn(4) {
 			case 0:
 				for _, o := range p.Operations {
-					o.ID.CUID = randUID(r)
+					if o.ID != nil {
+						o.ID.CUID = randUID(r)
+					}
 				}
 				desc = append(desc, "ops=foreign-cuid")
 			case 1:
 				p.Operations = nil
 				desc = append(desc, "ops=emptied")
 			case 2:
-				if len(p.Operations) > 0 {
+				if len(p.Operations) > 0 && p.Operations[len(p.Operations)-1].ID != nil {
 					base := p.Operations[len(p.Operations)-1]
 					for j := 0; j < 500; j++ {
 						o := proto.Clone(base).(*model.Operation)
@@ -177,9 +199,10 @@ func (x *c16world) mutate(req *model.PushPullMessage) string {
 				}
 			default:
 				if len(p.Operations) > 0 {
-					o := p.Operations[r.Intn(len(p.Operations))]
-					o.ID.Era = uint32(1 + r.Intn(3))
-					desc = append(desc, "ops=other-era")
+					if o := p.Operations[r.Intn(len(p.Operations))]; o.ID != nil {
+						o.ID.Era = uint32(1 + r.Intn(3))
+						desc = append(desc, "ops=other-era")
+					}
 				}
 			}
 		case 22:
